@@ -194,11 +194,16 @@ pub fn replay(files: &[(String, String)], schedule: &[String], lang: Lang, multi
         let p = sc.write(&rel, src.as_bytes());
         args.push(p.to_string_lossy().into_owned());
     }
-    let sched = schedule.join(",");
+    // the order of the actual enqueue operations is fixed by waiting for `sent:<f>` before the next event
+    let expanded: Vec<String> = schedule.iter().flat_map(|l| match l.strip_prefix("send:") {
+        Some(f) => vec![l.clone(), format!("sent:{f}")],
+        None => vec![l.clone()],
+    }).collect();
+    let sched = expanded.join(",");
     let mut env: Vec<(&str, String)> = vec![("TYPESHARE_VERIF_SCHEDULE", sched.clone()), ("TYPESHARE_VERIF_THREADS", threads.to_string()), ("TYPESHARE_VERIF_TRACE", "1".into())];
     env.extend(extra_env.iter().cloned());
     let r = run_cli(&args, &sc.root, &env, Duration::from_secs(30));
-    let passed = r.stderr.lines().filter_map(|l| l.strip_prefix("verif: passed ").map(String::from)).collect();
+    let passed = r.stderr.lines().filter_map(|l| l.strip_prefix("verif: passed ").map(String::from)).filter(|l| !l.starts_with("sent:")).collect();
     let outputs = cli::snapshot(&sc.path("out"));
     Replay { class: r.class(), code: r.code, stderr: r.stderr.chars().take(2000).collect(), passed, outputs, argv: args, schedule: sched }
 }
